@@ -616,6 +616,10 @@ func ZZ_C12_seq(a []int) {
 	}
 	zzReach("seq")
 	zzWireReflects(p, abs, "after the sequence")
+	// the history of one packet does not leak into packets created later
+	fresh, fabs := zzFresh(a[0])
+	zzViewEq(zzSnap(fresh), zzExpect(fabs), "a packet constructed after the history")
+	zzWireReflects(fresh, fabs, "a packet constructed after the history")
 }
 
 // ZZ_C12_filter: TopicFilter setters.
